@@ -47,7 +47,8 @@ RecParams == {[fam |-> "rec", t |-> t, depth |-> d, way |-> w, mutual |-> mu] :
 (**************************** params ****************************************)
 PTypes == <<"i8", "u128", "i16", "W16", "i128", "u8", "bool", "i64", "u32", "usize", "u16", "W64", "i32", "u64">>
 WDecls == <<WD("W16", 16, <<Mem("a", PrimT("u8")), Mem("b", PrimT("u8"))>>),
-            WD("W64", 64, <<Mem("a", PrimT("i32")), Mem("b", PrimT("u32"))>>)>>
+            \* a word with a nested word member: a word PARAMETER is read two member levels deep (`p.n.b`)
+            WD("W64", 64, <<Mem("a", PrimT("i32")), Mem("n", NamedT("W16")), Mem("c", PrimT("u16"))>>)>>
 IsW(s) == s \in {"W16", "W64"}
 TyOf(s) == IF IsW(s) THEN NamedT(s) ELSE PrimT(s)
 Cyc(s, k) == PTypes[((s + k - 2) % Len(PTypes)) + 1]
@@ -55,12 +56,16 @@ Cyc(s, k) == PTypes[((s + k - 2) % Len(PTypes)) + 1]
 ValOf(s, k, variant) ==
     CASE s = "bool" -> BoolL(k % 2 = 1)
       [] s = "W16" -> StE("W16", <<Fld("a", Lit("u8", 255 - k)), Fld("b", Lit("u8", k))>>)
-      [] s = "W64" -> StE("W64", <<Fld("a", LitV("i32", Add(MinSigned(32), FromNat(k, 32)))), Fld("b", LitV("u32", Sub(Ones(32), FromNat(k, 32))))>>)
+      [] s = "W64" -> StE("W64", <<Fld("a", LitV("i32", Add(MinSigned(32), FromNat(k, 32)))),
+                                   Fld("n", StE("W16", <<Fld("a", Lit("u8", 100 + k)), Fld("b", Lit("u8", 200 + k))>>)),
+                                   Fld("c", LitV("u16", Sub(Ones(16), FromNat(k, 16))))>>)
       [] OTHER -> LET w == Width(s)
                   IN IF variant = "small" THEN Lit(s, k)
                      ELSE IF Signed(s) THEN LitV(s, Add(MinSigned(w), FromNat(k, w))) ELSE LitV(s, Sub(Ones(w), FromNat(k, w)))
 \* the scalars of a place of type s
-Scalars(x, s) == IF IsW(s) THEN <<Ref(x, 0, <<Mb("a")>>), Ref(x, 0, <<Mb("b")>>)>> ELSE <<RV(x)>>
+Scalars(x, s) == CASE s = "W16" -> <<Ref(x, 0, <<Mb("a")>>), Ref(x, 0, <<Mb("b")>>)>>
+                   [] s = "W64" -> <<Ref(x, 0, <<Mb("a")>>), Ref(x, 0, <<Mb("n"), Mb("a")>>), Ref(x, 0, <<Mb("n"), Mb("b")>>), Ref(x, 0, <<Mb("c")>>)>>
+                   [] OTHER -> <<RV(x)>>
 PName(k) == "p" \o ToString(k)
 AName(k) == "a" \o ToString(k)
 ParamsProg(p) ==
